@@ -249,3 +249,59 @@ func c03IndexLoops(c *Ctx, p *Prog, pk *packages.Package, min int) {
 	n := indexLoopRule(c, p, pk, nil)
 	c.Min("index-loop-covers-list", "index loops over lists in "+short(pk.PkgPath), n, min)
 }
+
+// C03 rule epilogue-on-top-level-last (added after a defect found by differential probing): after the body,
+// buildFunc_body decides from "the last instruction" whether the function already returned (return), cannot fall
+// through (unreachable), or must get an implicit return. That must be the last element of the function body's own
+// list: the operand-stack model's LastInstruction() is the last instruction *visited*, which for a body ending in a
+// block, loop or if is the last nested one.
+func c03EpilogueDecision(c *Ctx, p *Prog, pk *packages.Package) {
+	const rule = "epilogue-on-top-level-last"
+	info := pk.TypesInfo
+	var fd *ast.FuncDecl
+	for name, d := range AllFuncDecls(pk) {
+		if strings.HasSuffix(name, ".buildFunc_body") {
+			fd = d
+		}
+	}
+	if fd == nil || fd.Body == nil {
+		c.Undecided(rule, "anchor:buildFunc_body", "", "function not found")
+		return
+	}
+	ld := newLocalDefs(info, fd)
+	n := 0
+	for _, s := range fd.Body.List {
+		sw, ok := s.(*ast.SwitchStmt)
+		if !ok {
+			continue
+		}
+		// the switch whose arms name INS_RETURN / INS_UNREACHABLE
+		names := ""
+		for _, arm := range SwitchArms(info, sw) {
+			names += arm.Names() + " "
+		}
+		if !strings.Contains(names, "INS_RETURN") || !strings.Contains(names, "INS_UNREACHABLE") {
+			continue
+		}
+		n++
+		var tag ast.Expr = sw.Tag
+		if sw.Init != nil {
+			if as, ok := sw.Init.(*ast.AssignStmt); ok && len(as.Rhs) == 1 {
+				tag = as.Rhs[0]
+			}
+		}
+		r := strings.ReplaceAll(ld.render(tag), " ", "")
+		// the variable may be assigned inside an `if n := len(list); n > 0` — follow plain assignments too
+		src := r
+		ast.Inspect(fd.Body, func(m ast.Node) bool {
+			if as, ok := m.(*ast.AssignStmt); ok && len(as.Lhs) == 1 && len(as.Rhs) == 1 && types.ExprString(as.Lhs[0]) == types.ExprString(tag) {
+				src += " " + strings.ReplaceAll(ld.render(as.Rhs[0]), " ", "")
+			}
+			return true
+		})
+		good := strings.Contains(src, ".Body.List[") && !strings.Contains(src, "LastInstruction()")
+		c.Check(good, rule, "buildFunc_body: switch on the last instruction", p.Pos(sw.Pos()), "reads the last element of fn.Body.List",
+			"the epilogue is chosen from `"+src+"`: the stack model's LastInstruction() is the last instruction visited, nested ones included, so a function whose body ends in a block/if whose last inner instruction is unreachable (or return) is taken to have ended there — the fall-through path drops its operands and returns 0")
+	}
+	c.Min(rule, "epilogue switches", n, 1)
+}
